@@ -245,6 +245,7 @@ static int check_exec(char *msg, size_t ml) {
     int dv = -1; for (int t = 0; t < NT; t++) if (tr[t] != ref_tr[t]) { dv = t; break; }
     if (race_found) { snprintf(msg, ml, "%s", race_msg); return 1; }
     if (cross_thread) { snprintf(msg, ml, "%s", cross_msg); return 3; }
+    if (POOLED && pool_bad) { snprintf(msg, ml, "the library released a block to the shared allocator twice, or released a pointer it never obtained (%d bad releases): another thread can now be handed memory that is still in use", pool_bad); return 3; }
     if (deadlock) { snprintf(msg, ml, "no progress: every unfinished thread spins on an atomic object of the library that no runnable thread can change (deadlock / livelock)"); return 4; }
     if (dv >= 0) { snprintf(msg, ml, "thread %d observed results that differ from a serial execution of its calls%s", dv, harness_note()); return 2; }
     return 0;
@@ -345,7 +346,7 @@ int main(int argc, char **argv) {
         if (serial_stuck) { res_viol(r, "c20:serial-stuck", "", "harness H%d: a script run alone never finishes (spins on an atomic object)", HARNESS); }
         char pp[100] = ""; for (int t = 0; t < NT; t++) snprintf(pp + strlen(pp), sizeof pp - strlen(pp), "%s%d", t ? "+" : "", ref_pts[t]);
         res_sample(r, "H%d: %d threads, shared-access points per thread %s, %ld executions, %llu distinct joint transcripts, max preemptions in one execution %d", HARNESS, NT, pp, o.execs, (unsigned long long)o.distinct_tr, o.max_preempt);
-        char name[160]; snprintf(name, sizeof name, "H%d (%d threads): %s", HARNESS, NT, HARNESS == 1 ? "create, encode(es), decode(auto), free" : HARNESS == 2 ? "load, crypt, keygen, encode(jp), decode_explicit, free" : HARNESS == 6 ? "libc allocator (alloc/free entries NULL): create, free, create, store, load, free" : HARNESS == 7 ? "decode(auto) of a refused phrase (feature not enabled) + decode_explicit + refused load | decode(auto, es) + refused decode_explicit + decode(auto)" : HARNESS == 8 ? "shared recycling pool allocator: load, free, create, store, free | create, store, free, load, free" : HARNESS == 10 ? "twin threads (same random blocks, same clock): create, store, create, store, free, free" : HARNESS == 9 ? "ambiguous Chinese phrases: decode(auto) -> multiple languages, decode_explicit(zh_s | zh_t), decode(auto, no lang_out)" : HARNESS == 5 ? "3 x (create, encode, decode(auto), free) in es / fr / en, coin 9" : HARNESS == 4 ? "load+encode(zh_t)+decode(auto)+crypt(non-ASCII) | create+encode(ko)+store+decode_explicit" : "create+encode | load+encode+decode_explicit | load+crypt+keygen, all English / coin 1");
+        char name[160]; snprintf(name, sizeof name, "H%d (%d threads): %s", HARNESS, NT, HARNESS == 1 ? "create, encode(es), decode(auto), free" : HARNESS == 2 ? "load, crypt, keygen, encode(jp), decode_explicit, free" : HARNESS == 6 ? "libc allocator (alloc/free entries NULL): create, free, create, store, load, free" : HARNESS == 7 ? "decode(auto) of a refused phrase (feature not enabled) + decode_explicit + refused load | decode(auto, es) + refused decode_explicit + decode(auto)" : HARNESS == 8 ? "shared recycling pool allocator: load, free, create, store, free | refused load, create, store, free, load, free" : HARNESS == 10 ? "twin threads (same random blocks, same clock): create, store, create, store, free, free" : HARNESS == 9 ? "ambiguous Chinese phrases: decode(auto) -> multiple languages, decode_explicit(zh_s | zh_t), decode(auto, no lang_out)" : HARNESS == 5 ? "3 x (create, encode, decode(auto), free) in es / fr / en, coin 9" : HARNESS == 4 ? "load+encode(zh_t)+decode(auto)+crypt(non-ASCII) | create+encode(ko)+store+decode_explicit" : "create+encode | load+encode+decode_explicit | load+crypt+keygen, all English / coin 1");
         char note[200]; snprintf(note, sizeof note, "%s; states = distinct (shared data, progress, values read, running thread) keys; transitions = enabled choices", complete ? "all interleavings explored (complete, no preemption bound)" : sync_complete ? "too large at access granularity; all interleavings at synchronisation granularity (library atomics) explored, race detector on every execution; access granularity up to the preemption bound in e3_preemption_bound" : bound_done >= 0 ? "state cap hit without bound; completed with preemption bound (see e3_preemption_bound)" : "stopped early");
         out_part(name, r, CLS, note);
         char k[64]; snprintf(k, sizeof k, "e3_H%d_complete", HARNESS); out_kv_int(k, complete); snprintf(k, sizeof k, "e3_H%d_preemption_bound", HARNESS); out_kv_int(k, complete ? -1 : bound_done); snprintf(k, sizeof k, "e3_H%d_executions", HARNESS); out_kv_int(k, o.execs);
